@@ -253,6 +253,29 @@ def _pickled(tree, handle):
   r, ok = _round(blob, tree, _Env(), handle)      # maybe_make accepts the bytes
   return ok
 
+def nsum(a, b):
+  _LOG.append('nsum')
+  vals = list(a.values()) if isinstance(a, dict) else [v for v in a]
+  return [int(v) for v in vals if v == v] + [b]
+
+def _pickled_unhashable(x0, x1, c0, kind):
+  """A (possibly cached) call whose argument is unhashable and not reflexively equal (list / dict holding NaN, numpy array with two
+  elements): the LazyFn hashes by its persistent id. Three separately deserialised copies of the expression - what three requests to a
+  worker receive - must each evaluate to the eager value. Inputs are concrete here (see _pickled)."""
+  import numpy as _np
+  _reset()
+  mk = lambda: [[float('nan'), x0], _np.array([x0, x1]), {'a': float('nan'), 'b': x0}][kind]
+  want = nsum(mk(), x1)
+  blob = lazy_fns.pickler.dumps(T(nsum)(mk(), x1, cache_result_=c0))
+  del _LOG[:]
+  for _ in range(3):
+    try:
+      r = lazy_fns.maybe_make(lazy_fns.pickler.loads(blob))
+    except Exception:
+      return False
+    if r != want: return False
+  return _LOG == ['nsum'] * len(_LOG) and 1 <= len(_LOG) <= 3
+
 def _raises_missing(x):
   try:
     lazy_fns.maybe_make(x)
@@ -461,6 +484,10 @@ def gen(p):
       tree = {src}
       with _vf_untraced():
         return _pickled(tree, {'lz' if em.handle else 'False'})"""))
+  A(F('ob_pickle_unhashable', 'x0: int, x1: int, c0: bool, kind: int', f'{lo2} <= x0 <= {hi2} and {lo2} <= x1 <= {hi2} and 0 <= kind <= 2', f"""
+      x0 = _pick(x0, {lo2}, {hi2}); x1 = _pick(x1, {lo2}, {hi2}); kind = _pick(kind, 0, 2); c0 = True if c0 else False
+      with _vf_untraced():
+        return _pickled_unhashable(x0, x1, c0, kind)"""))
   A(F('wit_flags', 'x0: int, x1: int, c0: bool, c1: bool', f'{lo2} <= x0 <= {hi2} and {lo2} <= x1 <= {hi2}', """
       _reset(); env = _Env()
       e = _lazy(('pair', (c0, False), ('cnt', (c1, False), ('L', x0)), ('L', x1)), env)
